@@ -210,8 +210,9 @@ fn check_products(a: &G, b: &G) -> Result<(), String> {
         return Err(format!("the inverse of a {n}x{n} matrix is {}x{}", b.h, b.w));
     }
     // NaN / infinite entries are outside the property; entries outside 2^-340 .. 2^340 can under- or overflow in a
-    // product of three, where the (purely relative) rounding model below does not apply: such inputs are generated,
-    // but only compared with the model
+    // product of three, where the (purely relative) rounding model below does not apply and the floor max|A| max|B_kj| is
+    // astronomically large: such inputs (subnormal / near-overflow, mixed extremes inside one matrix) are judged by the
+    // plug-in's clause 4b, which needs the exact rational |L||U| of partial pivoting (no division in `Big`)
     if !a.v.iter().all(|x| x.is_finite() && (*x == 0.0 || (x.abs() >= SAFE_LO && x.abs() <= SAFE_HI))) {
         return Ok(());
     }
@@ -1011,6 +1012,117 @@ fn harden(rng: &mut Rng, thorough: bool, emit: &mut dyn FnMut(String)) {
         }
     }
     threshold_scales(rng, thorough, emit);
+    mixed_extremes(rng, thorough, emit);
+}
+
+/// MIXED EXTREMES INSIDE ONE OBJECT (fourth seeded round): entries near the bottom of the range (subnormal, down to a
+/// few significant bits) and near the top (2^900 .. 2^1018) in the SAME matrix, placed so that their product is an
+/// ordinary number: `[[P, H], [E, D]]` with an ordinary well-conditioned block `P` (magnitude 2^-6 .. 2^6), `q x m` huge
+/// entries `H` in the rows of `P`, `m x q` tiny entries `E` below `P`, and a block `D` of the magnitude of `E P^-1 H` times
+/// 2^delta - the elimination multiplies a tiny multiplier `e / p` by a huge pivot-row entry and subtracts an ordinary
+/// number from an ordinary number.  Every pivot stays far above EPSILON; `delta` is kept large enough for the inverse
+/// (entries up to `1 / (e 2^delta)`) to stay below 2^1016.  Orders 2..6, 1..n-1 tiny rows, rows in order or shuffled, exact
+/// zeros among the tiny entries, real and small-dyadic units; the same construction with the tiny entries in the normal
+/// range (2^-1022 .. 2^-60: guards written `< 1e-300`, `< 1e-100`, ...) and the huge ones to match; one inversion and (rows
+/// in order) inverse-of-the-inverse.  Judged by the plug-in's clause 4b (exact |L||U| of partial pivoting, underflow allowance).
+fn mixed_extremes(rng: &mut Rng, thorough: bool, emit: &mut dyn FnMut(String)) {
+    let reps = if thorough { 10 } else { 1 };
+    let unit = |rng: &mut Rng, exact: bool| -> f64 {
+        if exact { *rng.pick(&[1.0, -1.0, 0.5, -0.5, 1.5, -1.5, 0.75, 1.25]) } else { rng.uniform(0.5, 1.0) * sgn(rng) }
+    };
+    for k in 0..360 * reps {
+        let n = 2 + k % 5;
+        let m = 1 + rng.below(n as u64 - 1) as usize;
+        let q = n - m;
+        let exact = k % 4 == 3;
+        // the tiny exponent: subnormal (barely / deep), the bottom of the normal range, anywhere below 2^-60
+        let e_eps = match k % 6 {
+            0 | 1 => -rng.range(1023, 1030),
+            2 | 3 => -rng.range(1030, 1052),
+            4 => -rng.range(960, 1022),
+            _ => -rng.range(60, 960),
+        };
+        let delta_min = (-1016 - e_eps).max(0);
+        let delta = delta_min + if rng.chance(1, 4) { rng.range(0, 20) } else { rng.range(0, 6) };
+        let e_p = rng.range(-6, 6);
+        let e_d_hi = (1018 + e_eps - e_p + delta).min(30);
+        let e_d = rng.range((-40i64).min(e_d_hi), e_d_hi);
+        let e_h = e_d - e_eps + e_p - delta;
+        let mut v = vec![0.0; n * n];
+        // P: diagonally dominant by rows, then (below) rows shuffled
+        for i in 0..q {
+            let mut off = 0.0;
+            for j in 0..q {
+                if i != j {
+                    let x = if exact { rng.range(-2, 2) as f64 * 0.5 } else { rng.uniform(-1.0, 1.0) };
+                    v[i * n + j] = x * p2(e_p);
+                    off += x.abs();
+                }
+            }
+            let d = if exact { off.max(1.0) + 1.0 } else { off + rng.uniform(0.5, 1.0) };
+            v[i * n + i] = d * sgn(rng) * p2(e_p);
+            for j in q..n {
+                v[i * n + j] = if rng.chance(1, 6) && m * q > 1 { 0.0 } else { unit(rng, exact) * p2(e_h) };
+            }
+        }
+        let mut any = false;
+        for i in q..n {
+            for j in 0..q {
+                let x = if rng.chance(1, 4) { 0.0 } else { unit(rng, exact) * p2(e_eps) };
+                any |= x != 0.0;
+                v[i * n + j] = x;
+            }
+            for j in q..n {
+                v[i * n + j] = if i == j { (2 * n) as f64 * sgn(rng) } else { unit(rng, exact) } * p2(e_d);
+            }
+        }
+        if !any {
+            v[q * n] = unit(rng, exact) * p2(e_eps);
+        }
+        if q * m > 0 && (0..q).all(|i| (q..n).all(|j| v[i * n + j] == 0.0)) {
+            v[q] = p2(e_h);
+        }
+        if k % 2 == 1 {
+            shuffle_rows(rng, n, &mut v);
+        }
+        // inverse-of-the-inverse only with the rows in order: the inverse of a row-shuffled matrix of this kind has its huge
+        // columns in the middle, and its own elimination then meets pivots that are pure rounding noise (2^950 out of
+        // cancelling 2^1005s) - whether it is refused depends on the last bit of B, not on the property
+        if k % 6 == 0 {
+            emit(format!("inv2 {}", req_mat_f(n, n, &v)));
+        } else {
+            emit_inv(emit, "f64", n, n, &v);
+        }
+    }
+    // the smallest instances, spelled out: [[p, h], [e, d]] with e h / p = d 2^-delta, every tiny exponent -1022 .. -1074
+    // (below about 2^-1050 the inverse leaves no room for a visible product: those are for the comparison with the model)
+    for t in 0..=52i64 {
+        let e_eps = -1022 - t;
+        for (c, delta) in [(1.0, 1i64), (-1.5, 0), (0.75, 4)] {
+            let delta = delta + (-1016 - e_eps).max(0);
+            let e_h = 1016 - t / 2;
+            let e_d = e_eps + e_h + delta;
+            if e_d < -44 {
+                continue;
+            }
+            let v = [1.0, c * p2(e_h), p2(e_eps), 2.0 * p2(e_d)];
+            if t % 2 == 0 {
+                emit_inv(emit, "f64", 2, 2, &v);
+            } else {
+                emit(format!("inv2 {}", req_mat_f(2, 2, &v)));
+            }
+            // rows exchanged, and the 3 x 3 with an ordinary row in between
+            emit_inv(emit, "f64", 2, 2, &[v[2], v[3], v[0], v[1]]);
+            let w = [2.0, 0.5, c * p2(e_h), 0.25, 1.0, 0.0, p2(e_eps), -p2(e_eps), 2.0 * p2(e_d)];
+            emit_inv(emit, "f64", 3, 3, &w);
+        }
+    }
+    // decimal spellings around the bottom of the normal range (2.2250738585072014e-308) and the top
+    for (e, h, d) in [(2e-308, 1e300, 4e-8), (2.3e-308, 1e300, 4e-8), (1.5e-308, 3e299, 1e-8), (1e-310, 1e302, 1e-5), (5e-309, 1.5e300, 1e-7), (1e-300, 1e292, 2e-8), (1e-200, 1e192, 2e-8)] {
+        emit_inv(emit, "f64", 2, 2, &[1.0, h, e, d]);
+        emit(format!("inv2 {}", req_mat_f(2, 2, &[1.0, h, e, d])));
+        emit_inv(emit, "f64", 3, 3, &[1.0, 0.0, h, 0.0, 2.0, -h, e, -e, d]);
+    }
 }
 
 /// TWO RARE THINGS AT ONCE (third seeded round): well-conditioned matrices that FORCE ROW EXCHANGES - permutation
